@@ -38,6 +38,13 @@ class Entry:
     tags: tuple = ()
     tol: float = 1e-5                 # C18 relative tolerance
     seed: int = 0
+    min_zhw: Callable[[int, int, int], bool] = lambda z, h, w: True   # 3-D kinds
+    finding: str = ""                 # non-empty: this configuration is a known/pending finding of that class
+
+    def admissible(self, h: int, w: int, z: int | None = None) -> bool:
+        if self.kind in ("den3d", "recon3d"):
+            return self.min_zhw(z, h, w)
+        return self.min_hw(h, w)
 
     def model(self) -> nn.Module:
         torch.manual_seed(1000 + self.seed)
@@ -63,6 +70,8 @@ def recon_inputs(n: int, coils: int, h: int, w: int, seed: int = 0, scale: float
     rss = (sens ** 2).sum((-1, 1), keepdim=True).sqrt()
     sens = sens / rss
     mask = (torch.rand((n, 1) + sp + (1,), generator=g) > 0.4)
+    if h * w <= 8:
+        mask[:] = True       # a two-pixel image from one k-space sample is constant: degenerate for every normalisation
     # always sample the centre so that zero-filled images are not all zero
     idx = tuple([slice(None), slice(None)] + [s // 2 for s in sp] + [slice(None)])
     mask[idx] = True
@@ -138,6 +147,28 @@ def unet_ok(levels: int):
     return ok
 
 
+def m16(n: int) -> int:
+    return ((n - 1) | 15) + 1
+
+
+def normunet_ok(levels: int, in_ch: int = 2, groups: int = 2):
+    """padded size must be admissible for the inner U-Net; a group must have at least two elements (std)"""
+    u = unet_ok(levels)
+    return lambda h, w: u(m16(h), m16(w)) and (in_ch // groups) * h * w >= 2
+
+
+def unet3d_ok(levels: int):
+    def ok(z, h, w):
+        p = [max(n, 2 ** levels) >> levels for n in (z, h, w)]
+        return p[0] * p[1] * p[2] >= 2
+    return ok
+
+
+def normunet3d_ok(levels: int):
+    u = unet3d_ok(levels)
+    return lambda z, h, w: u(m16(z), m16(h), m16(w))
+
+
 def mwcnn_ok(scales: int):
     def axis_ok(n):
         # every odd length met by `pad` must be >= 3 (reflect-pad by one needs a neighbour); lengths: n, then after each DWT
@@ -186,10 +217,11 @@ def denoisers() -> list[Entry]:
                        min_note="h, w >= 2^L and bottleneck not 1x1 (instance norm)", tags=("unet", f"L{L}")))
     for L in (1, 2, 4):
         E.append(Entry(f"NormUnetModel2d/L{L}", "unet2d", "den2d",
-                       lambda L=L: NormUnetModel2d(2, 2, 2, L, 0.0), "chw", min_hw=lambda h, w: h * w >= 2,
-                       min_note="h*w >= 2 (per-group std of one element is NaN)", tags=("normunet", f"L{L}")))
+                       lambda L=L: NormUnetModel2d(2, 2, 2, L, 0.0), "chw", min_hw=normunet_ok(L),
+                       min_note="padded (multiple of 16) size admissible for the U-Net: L=4 needs h>16 or w>16; group of >= 2 elements",
+                       tags=("normunet", f"L{L}")))
     E.append(Entry("NormUnetModel2d/in6out2", "unet2d", "den2d", lambda: NormUnetModel2d(6, 2, 2, 2, 0.0), "chw",
-                   in_ch=6, min_hw=lambda h, w: h * w >= 2, tags=("normunet",)))
+                   in_ch=6, min_hw=normunet_ok(2, 6), tags=("normunet",)))
     for S in (2, 3, 4):
         for bn in (False, True):
             E.append(Entry(f"MWCNN/S{S}{'/bn' if bn else ''}", "mwcnn", "den2d",
@@ -220,9 +252,9 @@ def denoisers3d() -> list[Entry]:
     E = []
     for L in (1, 2):
         E.append(Entry(f"UnetModel3d/L{L}", "unet3d", "den3d", lambda L=L: UnetModel3d(2, 2, 2, L, 0.0), "czhw",
-                       tags=("unet3d", f"L{L}")))
+                       min_zhw=unet3d_ok(L), min_note="bottleneck of the (2^L-padded) volume not 1x1x1", tags=("unet3d", f"L{L}")))
     E.append(Entry("NormUnetModel3d/L2", "unet3d", "den3d", lambda: NormUnetModel3d(2, 2, 2, 2, 0.0), "czhw",
-                   tags=("unet3d", "normunet")))
+                   min_zhw=normunet3d_ok(2), tags=("unet3d", "normunet")))
     return E
 
 
@@ -236,8 +268,14 @@ def grus() -> list[Entry]:
             E.append(Entry(f"{cls.__name__}/{'in' if inorm else 'noin'}", "recurrent", "gru",
                            lambda cls=cls, inorm=inorm: cls(in_channels=4, hidden_channels=4, out_channels=2, num_layers=2,
                                                             instance_norm=inorm, dense_connect=1 if inorm else 0),
-                           "chw", in_ch=4, min_hw=(lambda h, w: h * w >= 2) if (norm or inorm) else any_ok,
+                           "chw", in_ch=4, min_hw=(lambda h, w: h * w >= 2) if inorm else any_ok,
                            tags=("gru",) + (("normalized",) if norm else ()) + (("instance_norm",) if inorm else ())))
+    from direct.nn.recurrent.recurrent import Conv2dGRU as _G
+    for layers, cls in ((1, "wrong-shape"), (2, "raises")):
+        E.append(Entry(f"Conv2dGRU/zeropad-L{layers}", "recurrent", "gru",
+                       lambda layers=layers: _G(in_channels=4, hidden_channels=4, out_channels=2, num_layers=layers,
+                                                replication_padding=False),
+                       "chw", in_ch=4, min_hw=lambda h, w: h >= 3 and w >= 3, tags=("gru", "zeropad"), finding="gru-zero-padding"))
     return E
 
 
@@ -260,7 +298,7 @@ def recons() -> list[Entry]:
     fwd, bwd = _ops()
     E: list[Entry] = []
     u2 = unet_ok(2)
-    nu = lambda h, w: h * w >= 2  # noqa: E731
+    nu = normunet_ok(2)
     # ---- Unet2d
     for normalized in (False, True):
         for init in ("sense", "zero_filled"):
@@ -282,7 +320,6 @@ def recons() -> list[Entry]:
         "shared": {"no_parameter_sharing": False},
         "instnorm": {"instance_norm": True},
         "dense": {"dense_connect": True, "depth": 2},
-        "noskip-zeropad": {"skip_connections": False, "replication_padding": False},
         "sense": {"image_initialization": "sense"},
         "learned-init": {"learned_initializer": True, "initializer_channels": (2, 2, 4), "initializer_dilations": (1, 1, 2),
                          "initializer_multiscale": 2},
@@ -292,6 +329,10 @@ def recons() -> list[Entry]:
         E.append(Entry(f"RIM/{nm}", "rim", "recon", lambda kw=kw: RIM(fwd, bwd, **{"hidden_channels": 4, "length": 2, "depth": 1, **kw}),
                        "chw", _c_rim, min_hw=nu if nm in ("instnorm", "normalized") else any_ok,
                        tags=("gru",) + ((nm,) if nm != "default" else ())))
+    E.append(Entry("RIM/noskip", "rim", "recon", lambda: RIM(fwd, bwd, hidden_channels=4, length=2, depth=1, skip_connections=False),
+                   "chw", _c_rim, tags=("gru", "noskip"), finding="eval-set_-alias"))
+    E.append(Entry("RIM/zeropad", "rim", "recon", lambda: RIM(fwd, bwd, hidden_channels=4, length=2, depth=1, replication_padding=False),
+                   "chw", _c_rim, tags=("gru", "zeropad"), finding="gru-zero-padding"))
     E.append(Entry("RIM/scaled-loglikelihood", "rim", "recon", lambda: RIM(fwd, bwd, hidden_channels=4, length=2, depth=1),
                    "chw", _c_rim_scaled, tags=("gru", "scaling_factor")))
     # ---- LPDNet
@@ -319,7 +360,7 @@ def recons() -> list[Entry]:
                        "image", _c_kms, min_hw=ok, tags=("mwcnn",) + (("batchnorm",) if nm.endswith("bn") else ())))
     E.append(Entry("XPDNet/normalize", "xpdnet", "recon",
                    lambda: XPDNet(fwd, bwd, num_primal=2, num_dual=1, num_iter=2, normalize=True, **xkw),
-                   "image", _c_kms_scaled, min_hw=mwcnn_ok(2), tags=("mwcnn", "scaling_factor")))
+                   "image", _c_kms_scaled, min_hw=mwcnn_ok(2), tags=("mwcnn", "scaling_factor"), finding="scaling-broadcast"))
     # ---- KIKINet
     kkw = dict(image_mwcnn_hidden_channels=2, image_mwcnn_num_scales=2, image_unet_num_filters=2, image_unet_num_pool_layers=2,
                kspace_conv_hidden_channels=4, kspace_conv_n_convs=2, kspace_didn_hidden_channels=4, kspace_didn_num_dubs=2,
@@ -378,10 +419,14 @@ def recons() -> list[Entry]:
                                                                          image_init=init, cg_iters=4, cg_param_update_type=upd,
                                                                          **ckw),
                        "image", _c_ksm, min_hw=am[arch], tags=(arch, "cg"), tol=1e-3))
+    E.append(Entry("ConjGradNet/conv-sense-FR/tol1e-3", "conjgradnet", "recon",
+                   lambda: ConjGradNet(fwd, bwd, num_steps=2, denoiser_architecture="conv", image_init="sense", cg_iters=15,
+                                       cg_tol=1e-3, cg_param_update_type="FR", **ckw),
+                   "image", _c_ksm, tags=("conv", "cg", "cg-tol"), finding="conjgrad-batch-mean-stop"))
     # ---- MRIVarSplitNet
     vkw = {f"image_{k}": v for k, v in ckw.items()}
     vkw.update({f"kspace_{k}": v for k, v in ckw.items()})
-    for arch, ks, init in [("unet", None, "sense"), ("normunet", None, "zero_filled"), ("resnet", "conv", "sense"),
+    for arch, ks, init in [("unet", None, "sense"), ("resnet", "conv", "sense"),
                            ("didn", "unet", "sense"), ("conv", "didn", "zero_filled"), ("unet", "resnet", "sense")]:
         ok = am[arch] if ks is None else both(am[arch], am[ks])
         E.append(Entry(f"MRIVarSplitNet/{arch}-{ks}-{init}", "varsplitnet", "recon",
@@ -392,7 +437,11 @@ def recons() -> list[Entry]:
     E.append(Entry("MRIVarSplitNet/unet-normunet-sense", "varsplitnet", "recon",
                    lambda: MRIVarSplitNet(fwd, bwd, num_steps_reg=2, num_steps_dc=2, image_init="sense",
                                           image_model_architecture="unet", kspace_model_architecture="normunet", **vkw),
-                   "image", _c_varsplit, min_hw=both(u2, nu), tags=("unet", "k-normunet")))
+                   "image", _c_varsplit, min_hw=both(u2, normunet_ok(2, 5)), tags=("unet", "k-normunet"), finding="normunet-5ch-groups"))
+    E.append(Entry("MRIVarSplitNet/normunet-None-zero_filled", "varsplitnet", "recon",
+                   lambda: MRIVarSplitNet(fwd, bwd, num_steps_reg=2, num_steps_dc=2, image_init="zero_filled",
+                                          image_model_architecture="normunet", kspace_model_architecture=None, **vkw),
+                   "image", _c_varsplit, min_hw=normunet_ok(2, 4), tags=("normunet",), finding="normunet-zero-group"))
     # ---- VSharpNet
     skw = {f"image_{k}": v for k, v in ckw.items()}
     for arch, init in [("unet", "sense"), ("normunet", "zero_filled"), ("resnet", "sense"), ("didn", "sense"), ("conv", "zero_filled")]:
@@ -415,7 +464,7 @@ def recons3d() -> list[Entry]:
                        lambda norm=norm: VSharpNet3D(fwd, bwd, num_steps=2, num_steps_dc_gd=2, initializer_channels=(2, 2, 4),
                                                      initializer_dilations=(1, 1, 2), unet_num_filters=2, unet_num_pool_layers=2,
                                                      unet_norm=norm),
-                       "image3d", _c_last_ksm, tags=("unet3d",)))
+                       "image3d", _c_last_ksm, min_zhw=normunet3d_ok(2) if norm else unet3d_ok(2), tags=("unet3d",)))
     return E
 
 
@@ -439,3 +488,160 @@ def run_entry(e: Entry, model: nn.Module, inputs):
             x, state = inputs
             return model(x, state)[0]
         return e.call(model, inputs)
+
+
+# ----------------------------------------------------------------------------------------------------------------
+# forward hooks: what the REAL network does, block by block
+class Recorder:
+    """Registers forward hooks on `modules`; records (input spatial/ full shape, output shape) per call, in call order."""
+
+    def __init__(self, modules, full: bool = False):
+        self.calls = []
+        self.handles = []
+        seen = set()
+        for m in modules:
+            if id(m) in seen:
+                continue
+            seen.add(id(m))
+            self.handles.append(m.register_forward_hook(self._hook))
+        self.full = full
+
+    def _hook(self, module, inputs, output):
+        out = output[0] if isinstance(output, (tuple, list)) else output
+        inp = inputs[0]
+        self.calls.append((tuple(inp.shape), tuple(out.shape)))
+
+    def close(self):
+        for h in self.handles:
+            h.remove()
+        self.handles = []
+
+    def __enter__(self):
+        return self
+
+    def __exit__(self, *a):
+        self.close()
+
+
+def _conv_kp(conv):
+    """(kernel, stride, padding, dilation) of a torch conv; the axes must agree (the model applies one law per axis)."""
+    def one(v):
+        v = tuple(v) if isinstance(v, (tuple, list)) else (v,)
+        if len(set(v)) != 1:
+            raise ValueError(f"anisotropic hyper-parameter {v}")
+        return int(v[0])
+    return one(conv.kernel_size), one(conv.stride), one(conv.padding), one(conv.dilation)
+
+
+def trace_spec(e: Entry, m: nn.Module):
+    """For a building-block denoiser: (driver op name, parameter groups read from the instantiated module, modules to
+    hook).  The driver line is `op <groups> | dims`."""
+    from translate.recipes.c17 import MD, U2, U3, pool_params
+
+    fam = e.name.split("/")[0]
+    if fam in ("UnetModel2d", "NormUnetModel2d", "UnetModel3d", "NormUnetModel3d", "MultiDomainUnet2d"):
+        u = m
+        outer = []
+        if fam == "NormUnetModel2d":
+            u, outer = m.unet2d, [m.unet2d]
+        if fam == "NormUnetModel3d":
+            u, outer = m.unet3d, [m.unet3d]
+        first = u.down_sample_layers[0].layers[0]
+        first = getattr(first, "image_conv", first)
+        tconv = u.up_transpose_conv[0].layers[0]
+        tconv = getattr(tconv, "image_conv", tconv)
+        ck, _cs, cp, _cd = _conv_kp(first)
+        tk, ts, _tp, _td = _conv_kp(tconv)
+        file, func, call = {"UnetModel2d": (U2, "UnetModel2d.forward", "F.avg_pool2d"),
+                            "NormUnetModel2d": (U2, "UnetModel2d.forward", "F.avg_pool2d"),
+                            "MultiDomainUnet2d": (MD, "MultiDomainUnet2d.forward", "F.avg_pool2d"),
+                            "UnetModel3d": (U3, "UnetModel3d.forward", "F.avg_pool3d"),
+                            "NormUnetModel3d": (U3, "UnetModel3d.forward", "F.avg_pool3d")}[fam]
+        pk, ps, _pp = pool_params(file, func, call)
+        P = [ck, cp, pk, ps, tk, ts]
+        L = len(u.down_sample_layers)
+        hooks = list(u.down_sample_layers) + [u.conv] + list(u.up_transpose_conv) + list(u.up_conv) + outer
+        op = {"UnetModel2d": "unet", "MultiDomainUnet2d": "unet", "NormUnetModel2d": "normunet", "UnetModel3d": "unet3d",
+              "NormUnetModel3d": "normunet3d"}[fam]
+        groups = [[L], P] + ([[m.norm_groups, e.in_ch]] if fam.startswith("Norm") else [])
+        return op, groups, hooks, ("unet", P)
+    if fam == "MWCNN":
+        P = [m._kernel_size, m.IWT._r]
+        return "mwcnn", [[m.num_scales], P], [m.DWT, m.IWT] + list(m.down) + list(m.up), ("mwcnn", P)
+    if fam in ("DUB", "DIDN"):
+        d = m if fam == "DUB" else m.dubs[0]
+        ck, _s, cp, _d = _conv_kp(d.conv1_1[0])
+        dk, ds, dp, _d = _conv_kp(d.down1)
+        P = [ck, cp, dk, ds, dp, d.up1[0].pixelshuffle.upscale_factor]
+        if fam == "DUB":
+            return "dub", [[1], P], [c for _n, c in m.named_children()], ("didn", P)
+        hooks = [m.conv_in, m.down] + list(m.dubs) + [m.recon_block, m.recon_agg, m.conv, m.up2, m.conv_out]
+        return "didn", [[m.num_dubs, m.recon_block.num_convs, int(m.skip_connection)], P], hooks, ("didn", P)
+    if fam == "ResNet":
+        k, _s, p, _d = _conv_kp(m.conv_in)
+        nblocks = sum(1 for b in m.resblocks if type(b).__name__ == "ResNetBlock")
+        return "resnet", [[k, p, nblocks]], [m.conv_in, m.resblocks, m.conv_out], None
+    if fam == "Conv2d":
+        convs = [c for c in m.conv if isinstance(c, nn.Conv2d)]
+        k, _s, p, _d = _conv_kp(convs[0])
+        bn = int(any(isinstance(c, nn.BatchNorm2d) for c in m.conv))
+        return "convnet", [[k, p, bn, len(convs)]], list(m.conv), None
+    if fam in ("Conv2dGRU", "NormConv2dGRU"):
+        g = m.convgru if fam == "NormConv2dGRU" else m
+        repl = int(isinstance(g.conv_blocks[0][0], nn.ReplicationPad2d))
+        inorm = int(isinstance(g.reset_gates[0][0], nn.InstanceNorm2d))
+        grp = [m.norm_groups, e.in_ch] if fam == "NormConv2dGRU" else [0, 0]
+        return "gru", [[repl, inorm, g.num_layers], grp], list(g.conv_blocks), None
+    raise KeyError(fam)
+
+
+# ----------------------------------------------------------------------------------------------------------------
+# unrolled networks: which sub-modules are the denoisers, how often and on which layout they are called
+IMAGE, PER_COIL, COIL_BATCH = 0, 1, 2
+
+
+def schedule(e: Entry, m: nn.Module):
+    """(modules to hook, prologue blocks, body blocks, iterations); a block is (domain, cin, cout).  None when the model
+    has no denoiser sub-modules of the zoo (CIRIM)."""
+    fam = e.name.split("/")[0]
+    if fam == "Unet2d":
+        return [m.unet], [(IMAGE, 2, 2)], [], 0
+    if fam == "EndToEndVarNet":
+        return [l.regularizer_model for l in m.layers_list], [], [(IMAGE, 2, 2)], len(m.layers_list)
+    if fam == "KIKINet":
+        ks = m.kspace_model_list[0].model
+        return [ks, m.image_model_list[0]], [], [(PER_COIL, 2, 2), (IMAGE, 2, 2)], m.num_iter
+    if fam == "LPDNet":
+        nd, npr = m.num_dual, m.num_primal
+        return ([d.dual_block for d in m.dual_net] + [p.primal_block for p in m.primal_net], [],
+                [(PER_COIL, 2 * (nd + 2), 2 * nd), (IMAGE, 2 * (npr + 1), 2 * npr)], m.num_iter)
+    if fam == "XPDNet":
+        nd, npr = m.kspace_buffer_size, m.image_buffer_size
+        body, mods = [], list(m.image_model_list)
+        if m.kspace_model_list is not None:
+            body.append((PER_COIL, 2 * (nd + npr + 1), 2 * nd))
+            mods += [k.model for k in m.kspace_model_list]
+        body.append((IMAGE, 2 * (npr + nd), 2 * npr))
+        return mods, [], body, len(m.image_model_list)
+    if fam == "IterDualNet":
+        return (list(m.kspace_block_list) + list(m.image_block_list), [],
+                [(PER_COIL if m.compute_per_coil else IMAGE, 2, 2), (IMAGE, 2, 2)], m.num_iter)
+    if fam == "JointICNet":
+        return [m.sens_model, m.image_model, m.kspace_model], [], [(PER_COIL, 2, 2), (IMAGE, 2, 2), (IMAGE, 2, 2)], m.num_iter
+    if fam == "MultiDomainNet":
+        return [m.unet], [(PER_COIL, 4 if hasattr(m, "standardization") else 2, 2)], [], 0
+    if fam == "MRIVarSplitNet":
+        body, mods = [(IMAGE, 4, 2)], list(m.image_nets)
+        if m.kspace_nets is not None:
+            body.append((PER_COIL, 5, 2))
+            mods += list(m.kspace_nets)
+        return mods, [], body, m.num_steps_reg
+    if fam in ("VSharpNet", "VSharpNet3D"):
+        return list(m.denoiser_blocks), [], [(IMAGE, 6, 2)], m.num_steps
+    if fam == "ConjGradNet":
+        return list(m.nets), [], [(IMAGE, 2, 2)], m.num_steps
+    if fam == "RecurrentVarNet":
+        return [b.regularizer for b in m.block_list], [], [(IMAGE, 2, 2)], m.num_steps
+    if fam == "RIM":
+        return list(m.cell_list), [], [(IMAGE, 4, 2)], m.length
+    return None
